@@ -212,6 +212,8 @@ func Build(spec Spec) *Built {
 			if t.Immutable {
 				t.Mutable["G"] = r.Chance(2, 3)
 				t.Mutable["MS"] = r.Chance(2, 3)
+				t.Mutable["P"] = r.Chance(1, 2)
+				t.Mutable["Q"] = t.Mutable["P"] // declared together: one doc comment
 			}
 			if spec.Twin && ti == 0 {
 				if di == 0 {
@@ -235,6 +237,9 @@ func Build(spec Spec) *Built {
 			}
 			_ = inert
 			tf.Decls = append(tf.Decls, b.TypeDeclNode(t, tf))
+			if t.Kind == "struct" {
+				tf.Decls = append(tf.Decls, &Node{Pre: []*Line{b.line("type Inner" + t.Name + " struct{ Z int }")}})
+			}
 			env := &Env{}
 			n, fn := b.CtorNode(t, "New"+t.Name, fapi)
 			fapi.Decls = append(fapi.Decls, n)
@@ -759,6 +764,7 @@ func Build(spec Spec) *Built {
 		zf := b.NewFile(z0, "z.go")
 		zt := &Type{Pkg: z0, Name: "Cfg", Kind: "struct", Immutable: true, Ctors: []string{"NewCfg"}, Mutable: map[string]bool{"G": true}}
 		zf.Decls = append(zf.Decls, b.TypeDeclNode(zt, zf))
+		zf.Decls = append(zf.Decls, &Node{Pre: []*Line{b.line("type InnerCfg struct{ Z int }")}})
 		n, fn := b.CtorNode(zt, "NewCfg", zf)
 		zf.Decls = append(zf.Decls, n)
 		zenv := &Env{New: fn}
